@@ -59,11 +59,18 @@ def gen(rng, tier, quarantine=()):
     table = dict(fns)
     qual = rng.choice(FNS)
     fnir = table[qual]
+    generated = None
+    is_gen = False
+    if "no-generated-programs" not in quarantine and rng.random() < 0.5:
+        from .. import ir as _ir, progen
+
+        generated, is_gen = progen.gen_program(rng)
+        qual, fnir = "rf", dict(_ir.all_functions(generated))["rf"]
     short = qual.split(".")[-1]
     metas = ["#enter", "#exit", "#value", "#error"]
     for lv in loop_vars(fnir):
         metas += [f"#loop_{lv}", f"#endloop_{lv}"]
-    if short in GEN_FNS:
+    if short in GEN_FNS or is_gen:
         metas += ["#yield", "#receive"]
     if "no-fall-off" in quarantine and short in ("retnone", "genloop", "fortuple"):
         metas.remove("#value")
@@ -81,7 +88,7 @@ def gen(rng, tier, quarantine=()):
     ops = [{"op": "mk", "id": "p0", "sels": sels, "inv": "C06.meta"}, {"op": "enter", "id": "p0"}]
     tl = 24 if tier == "quick" else 48
     for c in range(rng.randint(1, 3)):
-        if short in GEN_FNS and rng.random() < 0.8:
+        if (short in GEN_FNS or is_gen) and rng.random() < 0.8:
             g = f"g{c}"
             cyc = rng.random() < 0.4
             ops.append({"op": "gen_new", "gen": g, "fn": qual, "nargs": 1, "cycle": cyc})
@@ -103,7 +110,10 @@ def gen(rng, tier, quarantine=()):
             op["faults"] = gen_faults(rng, 30, rng.choice([0, 0, 1, 1, 2]), pbase=0.3)
             ops.append(op)
     ops.append({"op": "exit", "id": "p0"})
-    return {"prog": "forms", "ops": ops}
+    sc = {"prog": "forms", "ops": ops}
+    if generated:
+        sc.update({"prog": "generated", "program": generated, "prog_name": f"gen{rng.randrange(1 << 40):x}"})
+    return sc
 
 
 def run(scenario):
